@@ -41,8 +41,10 @@ Step ==
             /\ o' = S!SaslObserve(o, Ev)
             /\ stats' = [stats EXCEPT !.successes = @ + (IF Ev.ok THEN 1 ELSE 0)]
             \* conformance with the design model: outcome and the messages the client sent
-            /\ drift1' = drift1 \cup F("outcome", Ev.ok = b.sc.ok)
-                                \cup F("sent", clis = SelectSeq(b.sc.sent, LAMBDA x : x # "abort"))
+            \* (scenarios with an earlier connection are written by hand, not predicted by the design model)
+            /\ drift1' = IF b.sc.prior # "" THEN drift1
+                          ELSE drift1 \cup F("outcome", Ev.ok = b.sc.ok)
+                                      \cup F("sent", clis = SelectSeq(b.sc.sent, LAMBDA x : x # "abort"))
             /\ UNCHANGED <<b, clis, nonces, viol1, viols, drift>>
        [] Ev.ev = "attempt" ->      \* C14: one honest exchange
             /\ viol1' = viol1 \cup F("C14_AcceptedIffCredentialsRight", Ev.judged => (Ev.accepted <=> Ev.right))
